@@ -372,6 +372,7 @@ class Program:
         self.modules: dict[str, ModuleInfo] = {}
         self.classes: dict[str, ClassInfo] = {}
         self._mro: dict[str, list[ClassInfo]] = {}
+        self.inlined_helpers: dict[str, list] = {}
         for m in modules:
             self._load(m)
 
@@ -382,6 +383,8 @@ class Program:
             with open(path, encoding='utf-8') as fp:
                 src = fp.read()
             tree = ast.parse(src, filename=path)
+            from .inline import inline_unknown_helpers
+            tree, self.inlined_helpers[name] = inline_unknown_helpers(name, tree)
             tree = ast.fix_missing_locations(_CanonRet().visit(_CanonAug().visit(tree)))
             tree = ast.fix_missing_locations(_CanonLoops().visit(_CanonTernary().visit(_CanonInline().visit(tree))))
         except (OSError, SyntaxError) as e:
